@@ -411,3 +411,59 @@ Lemma connect_first_answer_only allowed host first later later' script :
   snd (imageBoxConnect (first :: later) script) = later /\
   snd (revocationConnect allowed host (first :: later) script) = later.
 Proof. repeat split. Qed.
+
+(* ---- redirect chains: every URL that is requested passed the same validation as an initial URL *)
+Lemma revocationFollow_valid targets : forall nvia u,
+  In u (revocationFollow nvia targets) -> validateRevocationURL u = true.
+Proof.
+  induction targets as [|t rest IH]; intros nvia u H; cbn [revocationFollow] in H; [destruct H|].
+  destruct (revocationRedirect nvia t) eqn:R; [|destruct H].
+  destruct H as [<-|H]; [apply (revocationRedirect_sound nvia t R)|apply (IH _ _ H)].
+Qed.
+
+Lemma revocationFollow_length targets : forall nvia,
+  N.of_nat (length (revocationFollow nvia targets)) + nvia <= N.max nvia maxRevocationRedirects.
+Proof.
+  induction targets as [|t rest IH]; intros nvia; cbn [revocationFollow length]; [lia|].
+  destruct (revocationRedirect nvia t) eqn:R; cbn [length]; [|lia].
+  destruct (revocationRedirect_sound nvia t R) as [Hn _]. specialize (IH (nvia + 1)).
+  unfold maxRevocationRedirects in *. lia.
+Qed.
+
+Lemma revocationFollow_prefix targets : forall nvia,
+  exists k, revocationFollow nvia targets = firstn k targets.
+Proof.
+  induction targets as [|t rest IH]; intros nvia; cbn [revocationFollow]; [exists 0%nat; reflexivity|].
+  destruct (revocationRedirect nvia t); [|exists 0%nat; reflexivity].
+  destruct (IH (nvia + 1)) as [k Hk]. exists (S k). cbn [firstn]. rewrite Hk. reflexivity.
+Qed.
+
+Lemma revocationFetchChain_valid first targets u :
+  In u (revocationFetchChain first targets) -> validateRevocationURL u = true.
+Proof.
+  unfold revocationFetchChain. destruct (validateRevocationURL first) eqn:V; [|intros []].
+  intros [<-|H]; [exact V|apply (revocationFollow_valid _ _ _ H)].
+Qed.
+
+Lemma revocationFetchChain_length first targets :
+  (length (revocationFetchChain first targets) <= 10)%nat.
+Proof.
+  unfold revocationFetchChain. destruct (validateRevocationURL first); cbn [length]; [|lia].
+  pose proof (revocationFollow_length targets 1) as H. unfold maxRevocationRedirects in H. lia.
+Qed.
+
+Lemma imageBoxFollow_valid targets u :
+  In u (imageBoxFollow targets) -> validateImageBoxRemoteURL u = true.
+Proof.
+  induction targets as [|t rest IH]; cbn [imageBoxFollow]; [intros []|].
+  destruct (imageBoxRedirect t) eqn:R; [|intros []].
+  intros [<-|H]; [exact R|apply IH; exact H].
+Qed.
+
+Lemma imageBoxFetchChain_valid first targets u :
+  In u (imageBoxFetchChain first targets) -> validateImageBoxRemoteURL u = true.
+Proof.
+  unfold imageBoxFetchChain. destruct (imageBoxRemoteURL (Some first)) as [[|] [|]] eqn:E; try (intros []).
+  intros [<-|H]; [|apply (imageBoxFollow_valid _ _ H)].
+  destruct (imageBoxRemoteURL_sound _ E) as (p & Ep & _ & V). injection Ep as <-. exact V.
+Qed.
